@@ -6,6 +6,7 @@ from concurrent.futures import ThreadPoolExecutor
 
 import c1219_lib as L
 import engine
+import json_lib
 import gen
 import vcommon
 from ovnitrace import Scratch, Stream, ev_bytes, i32, run_emu, u32, u64, verdict, write_trace
@@ -267,11 +268,13 @@ def check(res, tier, replay=None):
                        "(ASan harness, exact-size heap buffer) and the Lean cursor (exact step/offset/verdict diff); "
                        "metadata corruptions also through the Lean metadata gates. non-trivial = ovniemu got past "
                        "argument parsing and opened the trace")
-    res.assumptions = ["parson parses JSON as Python's json module does for the generated documents (modelled getters)",
+    res.assumptions = ["parson = lean/OvniModel/Json.lean (Props/Json: round trip, truncation, getter laws, totality); tied to the "
+                       "real src/parson.c by the correspondence of checks/json_lib.py in this run (generator-bounded); numbers "
+                       "whose value the model does not compute (non-dyadic decimals, beyond 2^53) are compared on grammar only",
                        "memory beyond the stream file reads as zero in the model driver (mmap page tail); the theorems "
                        "quantify over arbitrary contents"]
-    prep = engine.prepare(res, asan=True, drivers=("drv_stream",))
-    proved = vcommon.prove(res, "C12")
+    prep = engine.prepare(res, asan=True, drivers=("drv_stream", "drv_json"))
+    proved = vcommon.prove(res, ["C12", "Json"])
     found = False
     _viol = res.violation
     seen_keys = {}
@@ -288,6 +291,15 @@ def check(res, tier, replay=None):
         r = vcommon.rng("c12")
         tabs = gen.load_tables()
         harness = L.stream_harness(prep)
+        # ---- the metadata layer below the gates: the parson model against the real parson.c
+        jreplay = [l[len("jsonline "):].strip() for l in open(replay) if l.startswith("jsonline ")] if replay else None
+        if not replay or jreplay:
+            for f in json_lib.run_json_correspondence(res, prep, tier, vcommon.rng("c12-json"), jreplay):
+                if f["kind"] == "oracle":
+                    found = True
+                    res.violation(f["key"], f["text"], f["replay"])
+                else:
+                    res.cov.setdefault("correspondence_breaks", []).append({"what": f["text"][:600], "script": f["replay"][:1500]})
         cases = load_replay(replay) if replay else all_cases(r, tier, tabs, res)
         with Scratch("c12") as d:
             # ---- the real ovniemu on every case
@@ -378,6 +390,9 @@ def check(res, tier, replay=None):
                         f"crash:ovniemu:{c.verdict}:{c.cls}"
                     res.violation(key, f"ovniemu did not exit cleanly: {c.verdict} ({c.cls}: {c.label})",
                                   c.replay_text() + "\n" + c.err[-1500:])
+    for b in res.cov.get("correspondence_breaks", [])[:3]:
+        proved = False
+        res.failed_obligations = getattr(res, "failed_obligations", []) + ["correspondence json: " + b["what"] + " on: " + b["script"]]
     for pr in prep.problems:
         res.failed_obligations = getattr(res, "failed_obligations", []) + [pr]
         proved = False
